@@ -33,6 +33,12 @@ theorem C05_eq_trans (C : CaseOps) (a b c : Obj) (h1 : eqObj C a b = true) (h2 :
 /-- `!=` is the negation of `==`. -/
 theorem C05_ne_is_not_eq (C : CaseOps) (a b : Obj) : neObj C a b = !eqObj C a b := rfl
 
+-- why NaN is excluded (as in the property): a NaN leaf is not even equal to itself
+example : eqObj CaseOps.py (.atom .nan) (.atom .nan) = false := by simp [eqObj, eqAtom]
+-- why the NocaseDict invariant is needed: with a duplicate (case-folded) key, `==` is not reflexive
+example : eqObj CaseOps.py (.dict 0 [(some ['a'], .atom (.num 1 1 1)), (some ['A'], .atom (.num 1 2 1))])
+    (.dict 0 [(some ['a'], .atom (.num 1 1 1)), (some ['A'], .atom (.num 1 2 1))]) = false := by decide +kernel
+
 -- non-vacuity: a good object with a nested dict, and a pair that is equal but not identical
 example : good CaseOps.py (.node 0 .className [.atom (.str ['A']), .none, .atom (.str ['n'])]) = true := by decide
 example : eqObj CaseOps.py (.dict 0 [(some ['a'], .atom (.num 1 5 1)), (some ['B'], .none)])
@@ -239,6 +245,11 @@ theorem C05_copy_sharing_fails_at :
      .none, .none, .none, .none, .none, .dict 4 [], .none] 1 (by decide) (by decide)
   revert this
   decide
+
+/-- the setters `copy()` goes through (source extraction) treat every slot the way the `copy()` docstrings say:
+    dict-valued attributes re-created, `value` through cimvalue(), path copied, the rest stored as given -/
+theorem C05_copy_spec_as_documented : ∀ k : Kind, copySpec k = (slotsOf k).map (docCopyAct k) := by
+  intro k; cases k <;> decide
 
 /-- a NocaseDict copy is a new dict holding the same value objects -/
 theorem C05_dict_copy_shape (n i : Nat) (es : List (Key × Obj)) :
